@@ -597,6 +597,54 @@ fn scan_all(ids: &mut Ids, out: &mut Out, sid: &str, bytes: &[u8]) {
         Err(p) => out.ev("ShPanic", json!({"sid": sid, "what": p})),
     }
     drop(ids_cell);
+    // the streaming reader asked for one section only (the other callback absent)
+    {
+        let mut only_x = vec![];
+        let ids_cell = std::cell::RefCell::new(&mut *ids);
+        let r = guarded(|| {
+            process_shard_stream(
+                &mut Cursor::new(bytes),
+                None::<fn(mdb_shard::file_structs::MDBFileInfoView) -> mdb_shard::error::Result<()>>,
+                Some(|v: mdb_shard::cas_structs::MDBCASInfoView| {
+                    let c = MDBCASInfo { metadata: v.header().clone(), chunks: (0..v.num_entries()).map(|j| v.chunk(j)).collect() };
+                    only_x.push(cas_json(&mut ids_cell.borrow_mut(), &c));
+                    Ok(())
+                }),
+            )
+        });
+        drop(ids_cell);
+        match r {
+            Ok(Ok(())) => out.ev("ShScanPart", json!({"sid": sid, "reader": "stream_cas_only", "part": "xorbs", "xorbs": only_x, "files": []})),
+            Ok(Err(e)) => out.ev("ShError", json!({"sid": sid, "what": format!("stream cas only {e:?}")})),
+            Err(p) => out.ev("ShPanic", json!({"sid": sid, "what": p})),
+        }
+        let mut only_f = vec![];
+        let ids_cell = std::cell::RefCell::new(&mut *ids);
+        let r = guarded(|| {
+            process_shard_stream(
+                &mut Cursor::new(bytes),
+                Some(|v: mdb_shard::file_structs::MDBFileInfoView| {
+                    let fi = MDBFileInfo {
+                        metadata: v.header().clone(),
+                        segments: (0..v.num_entries()).map(|j| v.entry(j)).collect(),
+                        verification: if v.contains_verification() { (0..v.num_entries()).map(|j| v.verification(j)).collect() } else { vec![] },
+                        metadata_ext: None,
+                    };
+                    let mut j = file_json(&mut ids_cell.borrow_mut(), &fi);
+                    j["sha"] = json!([-1, -1]);
+                    only_f.push(j);
+                    Ok(())
+                }),
+                None::<fn(mdb_shard::cas_structs::MDBCASInfoView) -> mdb_shard::error::Result<()>>,
+            )
+        });
+        drop(ids_cell);
+        match r {
+            Ok(Ok(())) => out.ev("ShScanPart", json!({"sid": sid, "reader": "stream_files_only", "part": "files", "files": only_f, "xorbs": []})),
+            Ok(Err(e)) => out.ev("ShError", json!({"sid": sid, "what": format!("stream files only {e:?}")})),
+            Err(p) => out.ev("ShPanic", json!({"sid": sid, "what": p})),
+        }
+    }
     // the asynchronous variants of the streaming and the minimal reader, fed in pieces of 1..64 bytes (short reads)
     let sizes: Vec<usize> = (0..17).map(|k| 1 + (k * 37 + bytes.len()) % 64).collect();
     let mut files = vec![];
@@ -1223,8 +1271,9 @@ fn run_keyed(ctl: &Arc<Ctl>, rng: &mut Rng_, ids: &mut Ids, out: &mut Out, n: us
         // expiry: all orderings of now against expiry and expiry + grace, at the exact boundaries
         let t0 = 1_000_000u64 + rng.gen_range(0..1000u64);
         let valid = rng.gen_range(10..100u64);
-        let grace = rng.gen_range(5..50u64);
-        for now in [t0, t0 + valid - 1, t0 + valid, t0 + valid + 1, t0 + valid + grace - 1, t0 + valid + grace, t0 + valid + grace + 1] {
+        // (a grace period of 0 is legal: deletion as soon as the shard has expired, never before)
+        let grace = if i % 3 == 2 { 0 } else { rng.gen_range(5..50u64) };
+        for now in [t0, t0 + valid - 1, t0 + valid, t0 + valid + 1, (t0 + valid + grace).saturating_sub(1), t0 + valid + grace, t0 + valid + grace + 1] {
             let dir = tempfile::tempdir().unwrap();
             ctl.set_clock(t0);
             let r = guarded(|| sf.export_with_expiration(dir.path(), Duration::from_secs(valid)));
